@@ -155,6 +155,48 @@ func sqrtLayers(tier string) []Layer {
 			},
 		})
 	}
+	// Q5: long operands that differ from an exact square (or an exact tie square) only far below the receiver's precision
+	{
+		var roots []*big.Int
+		for _, r := range []int64{1, 2, 3, 5, 7, 25, 35, 95, 15, 135, 105, 999, 1005, 31623} {
+			roots = append(roots, big.NewInt(r))
+		}
+		layers = append(layers, Layer{
+			Name:   "Q5-long-near-squares",
+			Units:  len(roots),
+			Bounds: "x = r²·10^(2k) ± 1 for k in {20,21,30,45,60,100} (the perturbation sits 40..200 digits below the leading digit), r in 14 roots incl. (10r'+5) tie roots, both exponent parities; receiver precision in {1,2,3,digits(r)-1,digits(r),digits(r)+1,9}; 6 modes",
+			Run: func(c *Ctx, u int) {
+				r := roots[u]
+				dr := uint32(ndigits(r))
+				sq := new(big.Int).Mul(r, r)
+				for _, k := range []int64{20, 21, 30, 45, 60, 100} {
+					for _, d := range []int64{1, -1} {
+						xi := new(big.Int).Mul(sq, p10(2*k))
+						xi.Add(xi, big.NewInt(d))
+						for _, e := range []int64{0, -1, -2 * k} {
+							if c.Done() {
+								return
+							}
+							xo := mkCoef(false, xi, e, uint32(ndigits(xi)), ToNearestAway)
+							x := xo.Build()
+							precs := []uint32{1, 2, 3, dr, dr + 1, 9}
+							if dr > 1 {
+								precs = append(precs, dr-1)
+							}
+							for _, p := range precs {
+								for _, m := range M6 {
+									if m == ToNearestAway {
+										xo.Mode = ToZero
+									}
+									sqrtCase(c, xo, x, p, m, preFresh)
+								}
+							}
+						}
+					}
+				}
+			},
+		})
+	}
 	// Q4: specials and range ends
 	{
 		var xs []*Opnd
